@@ -33,3 +33,33 @@ Theorem C12_others_untouched : forall (s : rtstore) (o : top) (id : Z) (x : rtim
   In x (rts_timers (fst (tref_step s o))).
 Proof. exact ref_other_untouched. Qed.
 Print Assumptions C12_others_untouched.
+
+(* ---------- the poller's bookkeeping, for EVERY state (world, fault plan at every call, lease, crash flag), every list of due
+   timers of the status and every configuration of timeouts ---------- *)
+From WF Require Import model.EngineBase model.Engine proofs.PollerFacts.
+
+(* in the trace of a poll cycle every Cancel sits directly on top of the lookup that found the timer's run moved on or finished,
+   and every Complete directly on top of the stored timeout transition (or of the updater's lookup that found the run already
+   moved) — [poll_ok], proofs/PollerFacts.v; a timer whose function failed, skipped or whose write failed stays listed *)
+Theorem C12_poller_bookkeeping : forall c st inst u n l, (forall t, In t l -> t_status t = st) ->
+  forall s, poll_ok st (o_trace s) -> poll_ok st (o_trace (snd (poll_timers c inst u st n l s))).
+Proof. exact poll_timers_ok. Qed.
+Print Assumptions C12_poller_bookkeeping.
+
+Theorem C12_cancel_reads : forall st id a top tr, poll_ok st (TTEnd KTX id a :: top :: tr) ->
+  exists run r, top = TLookup KLK run ROk (Some r) /\ (r_status r <> st \/ rs_finished (r_state r) = true).
+Proof.
+  intros st id a top tr H. inversion H as [|t tr' Hn Hr|id' a' top' tr' Hd Hr|id' a' run r tr' Hm Hr]; subst.
+  - destruct Hn.
+  - eauto.
+Qed.
+Print Assumptions C12_cancel_reads.
+
+Theorem C12_complete_reads : forall st id a top tr, poll_ok st (TTEnd KTM id a :: top :: tr) ->
+  (exists prev r, top = TStore prev r ROk) \/ (exists run l, top = TLookup KLK run ROk (Some l) /\ r_status l <> st).
+Proof.
+  intros st id a top tr H. inversion H as [|t tr' Hn Hr|id' a' top' tr' Hd Hr|id' a' run r tr' Hm Hr]; subst.
+  - destruct Hn.
+  - exact Hd.
+Qed.
+Print Assumptions C12_complete_reads.
